@@ -356,7 +356,7 @@ def generate(ctx):
     pairs = [(d, z) for d in SECRETS for z in DIGESTS]
     if ctx.tier == "quick":
         pairs = [pz for i, pz in enumerate(pairs) if i % 3 == 0] + [(1, N), (N - 1, N), (2, TWO256 - 1)]
-    pairs += [(rscalar(r), rdigest(r)) for _ in range(ctx.n(40, 1200))]
+    pairs += [(rscalar(r), rdigest(r)) for _ in range(ctx.n(24, 1200))]
     sigs = []
     for d, z in pairs:
         yield ("corr", "sign", [d, z])
@@ -395,7 +395,7 @@ def generate(ctx):
         ctx.label("sign_k/k=0-mod-n")
 
     # ---- verification: mutation catalogue around valid signatures
-    nmut = ctx.n(6, 100)
+    nmut = ctx.n(5, 100)
     step = max(1, len(sigs) // nmut)
     for d, z, rr, s in sigs[::step][:nmut]:
         q = ecref.mul(d, ecref.G)
